@@ -555,6 +555,10 @@ def array_stream(ctx, deep=False, model=True):
                 (status if res is None else 'returned {}'.format(res.ravel().tolist()[:8]))]
         else:
             problems = oracle_array(case, arr, status, res, deep or not quick)
+        if status == 'ok':
+            own = ownership_problems(case, arr, res)
+            if own:
+                ctx.violation(key_of(case) + ' ownership', '; '.join(own)[:600], desc)
         foreign = status.startswith('err:') and status.count(':') == 1 and \
             status[4:5].isupper()          # an exception class the model does not know
         if problems:
@@ -705,7 +709,7 @@ def malformed_stream(ctx):
 
 DYADIC_CELLS = [Fraction(1, 8), Fraction(1, 4), Fraction(1, 2)]
 ALL_CELLS = [Fraction(k, 8) for k in (1, 2, 3, 4, 6)]
-BAD_KINDS = {'range': ['shift-right', 'shift-far', 'shift-half'],
+BAD_KINDS = {'range': ['shift-right', 'shift-far', 'shift-half', 'shift-unchanged'],
              'ran_shp+offset': ['neg-offset', 'big-offset']}
 
 
@@ -727,7 +731,7 @@ def op_cases(ctx, count):
         dom_c = rng.choice([0.5, 2.0, 4.0, 1.0]) if exact else rng.choice([3.0, 0.7, 1.3])
         ran_c = rng.choice([3.0, 0.25, 2.0, 5.0]) if exact else rng.choice([0.3, 1.7, 2.9])
         bad = None
-        if variant in BAD_KINDS and rng.random() < 0.12:
+        if variant in BAD_KINDS and rng.random() < 0.15:
             bad = rng.choice(BAD_KINDS[variant])
         axes = []
         for ax in range(ndim):
@@ -759,8 +763,10 @@ def op_cases(ctx, count):
             if min(n, m) < 2:
                 bdry = (False, False)
             axes.append(dict(n=n, m=m, off=off, lo=str(lo), cell=str(cell), bdry=list(bdry)))
+        if bad == 'shift-unchanged' and all(a['m'] != a['n'] for a in axes):
+            axes[0]['m'], axes[0]['off'] = axes[0]['n'], 0
         if bad is not None:
-            cand = [k for k, a in enumerate(axes) if a['m'] != a['n']]
+            cand = [k for k, a in enumerate(axes) if (a['m'] == a['n']) == (bad == 'shift-unchanged')]
             if not cand:
                 bad = None
             else:
@@ -847,6 +853,8 @@ def shift_err_kind(e):
         return 'err:shift-not-multiple'
     if 'not contained in the larger one' in s:
         return 'err:not-contained'
+    if 'although the size is unchanged' in s:
+        return 'err:shifted-unchanged'
     return 'err:' + type(e).__name__ + ':' + s[:80]
 
 
@@ -911,7 +919,8 @@ def run_op_case(ctx, case):
                 if k == badk:
                     d = abs(m[k] - n[k])
                     shift = {'shift-right': Fraction(-rng_pos(r)), 'shift-far': Fraction(d + rng_pos(r)),
-                             'shift-half': Fraction(offs[k]) + Fraction(1, 2)}[badkind]
+                             'shift-half': Fraction(offs[k]) + Fraction(1, 2),
+                             'shift-unchanged': Fraction(rng_pos(r))}[badkind]
                 rlo.append(lo[k] + sgn * shift * cell[k])
                 rhi.append(rlo[-1] + (m[k] - Fraction(1, 2) * (int(dom_bdry[k][0]) +
                                                               int(dom_bdry[k][1]))) * cell[k])
@@ -1131,6 +1140,259 @@ def operator_stream(ctx, deep=False, model=True):
                 ctx.disagree({'kind': kind, 'line': line, 'case': case}, impl, ans,
                              stream={'discr': '_resize_discr', 'offsp': '_offset_from_spaces'}
                              .get(kind, 'operator adjoint'))
+
+
+# ---------------------------------------------------------------------------
+# RESULT OWNERSHIP and VALIDATION
+
+def ownership_problems(case, arr, res):
+    """The result is a NEW array (or `out`): not the input object, no shared memory, and writes
+    to one do not show in the other."""
+    problems = []
+    if res is arr:
+        problems.append('the result IS the input array object (a new array is documented)')
+        return problems
+    if np.shares_memory(res, arr):
+        problems.append('the result shares memory with the input array')
+        return problems
+    if res.size and arr.size and res.dtype.kind in 'fc' and arr.dtype.kind in 'fc':
+        keep_arr, keep_res = arr.copy(), res.copy()
+        res[...] = np.nan
+        if ilist(arr) != ilist(keep_arr):
+            problems.append('writing into the result changed the input')
+        res[...] = keep_res
+        arr[...] = np.nan
+        if ilist(res) != ilist(keep_res):
+            problems.append('writing into the input changed the result')
+        arr[...] = keep_arr
+    return problems
+
+
+def ownership_stream(ctx):
+    """Identity resizes (same shape, zero offset, ndarray input, no `out`) in every mode and
+    direction, and the operator paths."""
+    import odl
+    rng = ctx.rng
+    for mode in MODES:
+        for d in DIRS:
+            for shape in [(rng.randint(2, 5),), (rng.randint(2, 4), rng.randint(2, 4)), (0,)]:
+                for kind in ('C', 'strided'):
+                    ctx.case(None)
+                    ctx.hit('ownership/identity/{}/{}'.format(mode, d))
+                    case = dict(kind='array', mode=mode, dir=d, shape=list(shape),
+                                newshape=list(shape), off=[0] * len(shape), c=0, dtype='float64',
+                                outkind='none', inkind=kind, outdtype=None, data=None,
+                                vseed=rng.getrandbits(32))
+                    arr = case_data(case)
+                    keep = arr.copy()
+                    status, res = call_resize(case, arr)
+                    probs = ['identity resize refused: ' + status] if status != 'ok' else \
+                        ownership_problems(case, arr, res)
+                    if status == 'ok' and ilist(res) != ilist(keep):
+                        probs.append('identity resize changed the values')
+                    if probs:
+                        ctx.violation(key_of(case) + ' ownership identity-resize',
+                                      '; '.join(probs)[:600], describe(case, keep))
+    # operators: op(x), adjoint(y), inverse(z); with out= the result is out
+    for mode in MODES:
+        for same in (True, False):
+            ctx.case(None)
+            ctx.hit('ownership/operator/' + ('identity' if same else 'resize'))
+            n = rng.randint(3, 5)
+            m = n if same else n + 2
+            desc = dict(kind='ownership-op', mode=mode, n=n, m=m)
+            probs = []
+            try:
+                dom = odl.uniform_discr(0, n * 0.5, n)
+                op = odl.ResizingOperator(dom, ran_shp=(m,), offset=0 if same else 1, pad_mode=mode)
+                x = dom.element(np.arange(1.0, n + 1))
+                y = op.range.element(np.arange(1.0, m + 1))
+                for name, f, inp in (('op(x)', op, x), ('adjoint(y)', op.adjoint, y),
+                                     ('inverse(y)', op.inverse, y)):
+                    r = f(inp)
+                    ra, ia = r.asarray(), inp.asarray()
+                    if r is inp or np.shares_memory(r.tensor.data, inp.tensor.data):
+                        probs.append('{}: the result is / shares memory with the input element'
+                                     .format(name))
+                    out = f.range.element()
+                    r2 = f(inp, out=out)
+                    if r2 is not out:
+                        probs.append('{}: with out= the result is not out'.format(name))
+                    if ilist(out.asarray()) != ilist(ra):
+                        probs.append('{}: out= gives another result'.format(name))
+            except Exception as e:  # noqa
+                probs.append('raised {}: {}'.format(type(e).__name__, str(e)[:120]))
+            if probs:
+                ctx.violation('ResizingOperator ownership mode={} {}'.format(
+                    mode, 'identity' if same else 'resize'), '; '.join(probs)[:600], desc)
+
+
+def validation_cases():
+    """(name, kind, builder) — builder(legal) returns a thunk performing the illegal call
+    (legal=False) or its nearest legal neighbour (legal=True).  `kind` is the stratum.
+    The predicates come from the docstrings of resize_array / ResizingOperator."""
+    import odl
+    d1 = lambda: odl.uniform_discr(0, 1, 4)                       # noqa cell 1/4
+    d2 = lambda: odl.uniform_discr([0, 0], [1, 1], (4, 2))        # noqa cells 1/4, 1/2
+    x24 = lambda: np.arange(8.0).reshape(2, 4)                    # noqa
+
+    def ro(*a, **k):
+        return lambda: odl.ResizingOperator(*a, **k)
+
+    def call(opf, shape):
+        def f():
+            op = opf()
+            return op(op.domain.one())
+        return f
+    cases = [
+        # ---- ResizingOperator(range=...)
+        ('cell sides differ in a resized axis', 'op/cell-sides/resized', ValueError,
+         lambda ok: ro(d2(), odl.uniform_discr([-0.25, 0], [1.25 if ok else 1.5, 1], (6, 2)))),
+        ('cell sides differ in an UNCHANGED axis', 'op/cell-sides/unchanged', ValueError,
+         lambda ok: ro(d2(), odl.uniform_discr([-0.25, 0], [1.25, 1 if ok else 2], (6, 2)))),
+        ('cell sides differ in an UNCHANGED axis whose first grid points coincide',
+         'op/cell-sides/unchanged-same-first-node', ValueError,
+         lambda ok: ro(d2(), odl.uniform_discr([-0.25, 0 if ok else -0.25],
+                                               [1.25, 1 if ok else 1.75], (6, 2)))),
+        ('range shifted by a non-multiple of the cell side', 'op/shift-non-multiple', ValueError,
+         lambda ok: ro(d1(), odl.uniform_discr(-0.25 if ok else -0.125,
+                                               1.25 if ok else 1.375, 6))),
+        ('range shifted in an UNCHANGED axis', 'op/shift-unchanged-axis', ValueError,
+         lambda ok: ro(d2(), odl.uniform_discr([-0.25, 0 if ok else 0.5],
+                                               [1.25, 1 if ok else 1.5], (6, 2)))),
+        ('range does not contain the domain', 'op/not-contained', ValueError,
+         lambda ok: ro(d1(), odl.uniform_discr(-0.5 if ok else 0.25, 1.0 if ok else 1.75, 6))),
+        ('range with another number of axes', 'op/ndim-mismatch', (ValueError, TypeError),
+         lambda ok: ro(d1(), odl.uniform_discr(-0.25, 1.25, 6) if ok else
+                       odl.uniform_discr([-0.25, 0], [1.25, 1], (6, 4)))),
+        ('range that is not a DiscretizedSpace', 'op/range-type', (TypeError, ValueError),
+         lambda ok: ro(d1(), odl.uniform_discr(-0.25, 1.25, 6) if ok else odl.rn(6))),
+        ('domain that is not a DiscretizedSpace', 'op/domain-type', TypeError,
+         lambda ok: ro(d1() if ok else odl.rn(4), ran_shp=(6,))),
+        ('neither range nor ran_shp', 'op/no-range', ValueError,
+         lambda ok: ro(d1(), ran_shp=(6,)) if ok else ro(d1())),
+        ('both range and ran_shp', 'op/range-and-ran_shp', ValueError,
+         lambda ok: ro(d1(), odl.uniform_discr(-0.25, 1.25, 6)) if ok else
+         ro(d1(), odl.uniform_discr(-0.25, 1.25, 6), ran_shp=(6,))),
+        ('offset together with range', 'op/offset-with-range', ValueError,
+         lambda ok: ro(d1(), odl.uniform_discr(-0.25, 1.25, 6)) if ok else
+         ro(d1(), odl.uniform_discr(-0.25, 1.25, 6), offset=1)),
+        ('ran_shp of the wrong length', 'op/ran_shp-length', (ValueError, TypeError),
+         lambda ok: ro(d2(), ran_shp=(6, 2) if ok else (6,))),
+        ('resizing a non-uniform axis', 'op/non-uniform-axis', ValueError,
+         lambda ok: ro(odl.DiscretizedSpace(
+             odl.uniform_partition(0, 1, 4).append(odl.nonuniform_partition([0, 1, 4])),
+             odl.rn((4, 3))), ran_shp=(6, 3) if ok else (4, 5))),
+        ('unknown pad_mode', 'op/pad_mode', ValueError,
+         lambda ok: ro(d1(), ran_shp=(6,), pad_mode='order0' if ok else 'order2')),
+        ('offset beyond the size difference', 'op/offset-range', ValueError,
+         lambda ok: ro(d1(), ran_shp=(6,), offset=2 if ok else 3)),
+        ('negative offset', 'op/offset-negative', ValueError,
+         lambda ok: ro(d1(), ran_shp=(6,), offset=0 if ok else -1)),
+        ('non-integer offset', 'op/offset-non-integer', (ValueError, TypeError),
+         lambda ok: ro(d1(), ran_shp=(6,), offset=1 if ok else 1.5)),
+        ('symmetric padding of n cells (> n - 1), at the call', 'op/symmetric-limit', ValueError,
+         lambda ok: call(ro(d1(), ran_shp=(7 if ok else 8,), offset=3 if ok else 4,
+                            pad_mode='symmetric'), None)),
+        ('periodic padding of n + 1 cells (> n), at the call', 'op/periodic-limit', ValueError,
+         lambda ok: call(ro(d1(), ran_shp=(8 if ok else 9,), offset=4 if ok else 5,
+                            pad_mode='periodic'), None)),
+        ('order1 padding of a 1-point axis, at the call', 'op/order1-limit', ValueError,
+         lambda ok: call(ro(odl.uniform_discr(0, 1, 2 if ok else 1), ran_shp=(4,),
+                            pad_mode='order1'), None)),
+        # ---- resize_array
+        ('newshp not a sequence', 'ra/newshp-type', TypeError,
+         lambda ok: lambda: resize_array(x24(), (3, 4) if ok else 5)),
+        ('newshp of the wrong length', 'ra/newshp-length', ValueError,
+         lambda ok: lambda: resize_array(x24(), (3, 4) if ok else (3,))),
+        ('unknown pad_mode', 'ra/pad_mode', ValueError,
+         lambda ok: lambda: resize_array(x24(), (3, 4), pad_mode='periodic' if ok else 'wrap')),
+        ('unknown direction', 'ra/direction', ValueError,
+         lambda ok: lambda: resize_array(x24(), (3, 4), direction='adjoint' if ok else 'back')),
+        ('offset out of range', 'ra/offset-range', ValueError,
+         lambda ok: lambda: resize_array(x24(), (3, 4), offset=[1 if ok else 2, 0])),
+        ('negative offset', 'ra/offset-negative', ValueError,
+         lambda ok: lambda: resize_array(x24(), (3, 4), offset=[0 if ok else -1, 0])),
+        ('non-integer offset', 'ra/offset-non-integer', (ValueError, TypeError),
+         lambda ok: lambda: resize_array(x24(), (3, 4), offset=[1 if ok else 0.5, 0])),
+        ('offset of the wrong length', 'ra/offset-length', ValueError,
+         lambda ok: lambda: resize_array(x24(), (3, 4), offset=[1, 0] if ok else [1, 0, 0])),
+        ('symmetric padding of n entries', 'ra/symmetric-limit', ValueError,
+         lambda ok: lambda: resize_array(x24(), (2, 7 if ok else 8), pad_mode='symmetric')),
+        ('periodic padding of n + 1 entries', 'ra/periodic-limit', ValueError,
+         lambda ok: lambda: resize_array(x24(), (2, 8 if ok else 9), pad_mode='periodic')),
+        ('order1 padding of a 1-entry axis', 'ra/order1-limit', ValueError,
+         lambda ok: lambda: resize_array(np.arange(2.0 if ok else 1.0), (4,), pad_mode='order1')),
+        ('order0 padding of an empty axis', 'ra/order0-limit', ValueError,
+         lambda ok: lambda: resize_array(np.arange(1.0 if ok else 0.0), (3,), pad_mode='order0')),
+        ('adjoint with pad_const != 0', 'ra/adjoint-pad_const', ValueError,
+         lambda ok: lambda: resize_array(x24(), (1, 4), pad_const=0 if ok else 1,
+                                         direction='adjoint')),
+        ('pad_const not castable to the result dtype', 'ra/pad_const-cast', ValueError,
+         lambda ok: lambda: resize_array(np.arange(4), (6,), pad_const=2 if ok else 2.5)),
+        ('out that is not an ndarray', 'ra/out-type', TypeError,
+         lambda ok: lambda: resize_array(x24(), (3, 4), out=np.zeros((3, 4)) if ok else
+                                         [[0.0] * 4] * 3)),
+        ('out of the wrong shape', 'ra/out-shape', ValueError,
+         lambda ok: lambda: resize_array(x24(), (3, 4), out=np.zeros((3, 4) if ok else (4, 3)))),
+        ('out with another number of axes', 'ra/out-ndim', ValueError,
+         lambda ok: lambda: resize_array(x24(), (3, 4) if ok else (3, 4, 1),
+                                         out=np.zeros((3, 4) if ok else (3, 4, 1)))),
+    ]
+    return cases
+
+
+def validation_stream(ctx):
+    import warnings
+    for name, stratum, exc, builder in validation_cases():
+        for legal in (False, True):
+            ctx.case(None)
+            ctx.hit('validation/' + stratum + ('/legal-neighbour' if legal else '/rejected'))
+            desc = dict(kind='validation', name=name, legal=legal)
+            key = 'validation {} {}'.format(stratum, 'legal-neighbour' if legal else 'rejected')
+            try:
+                with warnings.catch_warnings():
+                    warnings.simplefilter('ignore')
+                    thunk = builder(legal)
+                    res = thunk()
+                if not legal:
+                    ctx.violation(key, '{}: accepted although it must be rejected with {}; '
+                                  'returned {}'.format(name, getattr(exc, '__name__', exc),
+                                                       str(res)[:120].replace('\n', ' ')), desc)
+            except Exception as e:  # noqa
+                if legal:
+                    ctx.violation(key, 'the nearest LEGAL neighbour of "{}" was rejected: {}: {}'
+                                  .format(name, type(e).__name__, str(e)[:160]), desc)
+                elif not isinstance(e, exc):
+                    ctx.violation(key, '{}: raised {} ({}) instead of {}'.format(
+                        name, type(e).__name__, str(e)[:100],
+                        getattr(exc, '__name__', exc)), desc)
+                else:
+                    ctx.err('validation:' + stratum)
+    # a rejected call must not have written anything: the input always, `out` for everything
+    # that is refused by the argument checks (the pad-length guards of `_apply_padding` fire after
+    # `out` was filled; the docstring does not promise an untouched `out` there)
+    x = np.arange(8.0).reshape(2, 4)
+    for name, kw in [('pad_mode', dict(pad_mode='wrap')), ('direction', dict(direction='back')),
+                     ('offset-range', dict(offset=[2, 0])), ('offset-negative', dict(offset=[-1, 0])),
+                     ('adjoint-pad_const', dict(pad_const=1, direction='adjoint')),
+                     ('periodic-limit-input-only', dict(pad_mode='periodic'))]:
+        ctx.case(None)
+        ctx.hit('validation/nothing-written/' + name)
+        shp = (3, 4) if name != 'periodic-limit-input-only' else (2, 9)
+        out = np.full(shp, 7.0)
+        arr = x.copy()
+        try:
+            resize_array(arr, shp, out=out, **kw)
+            ctx.violation('validation nothing-written ' + name, 'the call was accepted', {})
+        except Exception:  # noqa
+            if not np.array_equal(arr, x):
+                ctx.violation('validation nothing-written ' + name,
+                              'the rejected call changed its input', dict(kind='validation'))
+            if name != 'periodic-limit-input-only' and not np.all(out == 7.0):
+                ctx.violation('validation nothing-written ' + name,
+                              'the rejected call wrote into `out`: {}'.format(out.tolist()),
+                              dict(kind='validation'))
 
 
 # ---------------------------------------------------------------------------
@@ -1590,6 +1852,8 @@ def run(ctx):
     nppad_stream(ctx)
     array_stream(ctx)
     operator_stream(ctx)
+    ownership_stream(ctx)
+    validation_stream(ctx)
     padconst_stream(ctx)
     history_stream(ctx)
     # coverage of the model's branches by this run (a silent loss of coverage must be visible)
@@ -1601,6 +1865,10 @@ def run(ctx):
     expected += ['reference/' + m for m in MODES] + ['discr-model', 'opadj-model', 'opadjnd-model', 'offsp-model',
                  'operator/one-cell-axis', 'operator/ndim=3']
     expected += ['operator/inconsistent/' + k for ks in BAD_KINDS.values() for k in ks]
+    expected += ['ownership/identity/{}/{}'.format(m_, d_) for m_ in MODES for d_ in DIRS]
+    expected += ['ownership/operator/identity', 'ownership/operator/resize']
+    expected += ['validation/' + st + sfx for _, st, _, _ in validation_cases()
+                 for sfx in ('/rejected', '/legal-neighbour')]
     expected += [padconst_stratum(a, b, v, c) for a, b, v, c, _ in padconst_plan()]
     expected += ['padconst-model']
     expected += ['history/kwargs-reuse', 'history/operator-reuse', 'history/array-reuse',
@@ -1625,6 +1893,8 @@ def search(ctx, broken):
         operator_stream(ctx, deep=True, model=False)
         history_stream(ctx, deep=True, model=False)
         padconst_stream(ctx, deep=True, model=False)
+        ownership_stream(ctx)
+        validation_stream(ctx)
     finally:
         ctx.tier = saved
 
@@ -1645,6 +1915,14 @@ def replay(ctx, case):
         problems, _, _ = run_op_case(ctx, case)
         problems = [t for tag, t in problems if case.get('tag') in (None, tag)]
         return '; '.join(problems) if problems else None
+    if case.get('kind') in ('validation', 'ownership-op'):
+        sub = core.Ctx(ctx.pid, 'thorough', ctx.seed)
+        validation_stream(sub)
+        ownership_stream(sub)
+        hits = [v for v in sub.violations if v['replay'].get('name') == case.get('name') and
+                v['replay'].get('legal') == case.get('legal') and
+                v['replay'].get('kind') == case.get('kind')]
+        return hits[0]['what'] if hits else None
     if case.get('kind') in ('padconst', 'padconst-ra'):
         sub = core.Ctx(ctx.pid, 'thorough', ctx.seed)
         padconst_stream(sub, deep=True, model=False)
